@@ -300,9 +300,7 @@ def run_check(modname, tier, seed, workers=None, out=sys.stdout):
                     total.stats.update(r["stats"])
                     total.sim_seconds += r["sim_seconds"]
                     total.exec_seconds += r["exec_seconds"]
-                    for s in r["samples"]:
-                        if len(total.samples) < 3:
-                            total.samples.append(s)
+                    total.samples.extend(r["samples"])
                     for k, v in r["known"].items():
                         total.known.setdefault(k, v)
                     if r["failure"]:
@@ -422,7 +420,7 @@ def write_evidence(mod, prop, tier, seed, total, wall, n_viol, workers, skipped,
             evaluations=int(total.evaluations),
             distinct_nontrivial=int(len(total.nontrivial)),
             rule=desc["rule"],
-            samples=total.samples[:3] or [],
+            samples=sorted(total.samples, key=digest)[:3],
             distinct_event_log_digests=len(total.digests),
             distinct_history_shapes=len(total.shapes),
             simulated_seconds=round(total.sim_seconds, 3),
